@@ -53,11 +53,18 @@ func TestLongHistoryOverlap(t *testing.T) {
 		np := rapid.IntRange(1, 8).Draw(t, "publishers")
 		per := rapid.IntRange(1, 30).Draw(t, "publishesEach")
 		nsubs := rapid.IntRange(1, 3).Draw(t, "lateSubscriptions")
+		// other subscriptions whose consumers never read (same topic, and another topic with its own history): what THIS
+		// subscription receives does not depend on them. Not in blocking mode, where publishers wait for every subscriber.
+		idle := 0
+		if !blocking {
+			idle = rapid.SampledFrom([]int{0, 0, 1, 2}).Draw(t, "idleSubscriptionsElsewhere")
+		}
+		idleSubs = idle
 		problems, overlap := runLongHistory(hist, buffer, blocking, np, per, nsubs)
-		canon := fmt.Sprintf("long|%d|%d|%v|%d|%d|%d", hist, buffer, blocking, np, per, nsubs)
+		canon := fmt.Sprintf("long|%d|%d|%v|%d|%d|%d|idle%d", hist, buffer, blocking, np, per, nsubs, idle)
 		if len(problems) > 0 {
 			path := lib.WriteReplay("TestReplayLongHistory", "C11-TestLongHistoryOverlap", map[string]any{"property": "C11", "canon": canon, "violations": problems,
-				"hist": hist, "buffer": buffer, "blocking": blocking, "publishers": np, "per": per, "subs": nsubs})
+				"hist": hist, "buffer": buffer, "blocking": blocking, "publishers": np, "per": per, "subs": nsubs, "idle": idle})
 			t.Fatalf("violation of C11 (%d):\n  %s\ncase: %s\nreplay: %s", len(problems), strings.Join(problems, "\n  "), canon, path)
 		}
 		lib.Case(canon, overlap, "long-history", fmt.Sprintf("history>=1025:%v", hist >= 1025))
@@ -66,6 +73,9 @@ func TestLongHistoryOverlap(t *testing.T) {
 		}
 	})
 }
+
+// idleSubs: number of never-read subscriptions created before the measured ones (set by the test, kept by the replay entry point)
+var idleSubs int
 
 func runLongHistory(hist, buffer int, blocking bool, np, per, nsubs int) (problems []string, overlap bool) {
 	g := gochannel.NewGoChannel(gochannel.Config{OutputChannelBuffer: int64(buffer), Persistent: true, BlockPublishUntilSubscriberAck: blocking}, watermill.NopLogger{})
@@ -79,6 +89,25 @@ func runLongHistory(hist, buffer int, blocking bool, np, per, nsubs int) (proble
 		}
 		if err := g.Publish("topic", batch...); err != nil {
 			return []string{"harness: publish failed: " + err.Error()}, false
+		}
+	}
+	for k := 0; k < idleSubs; k++ {
+		topic := "topic"
+		if k == 1 {
+			// a second topic with as much history, and nobody ever reads its subscription
+			topic = "other-topic"
+			for i := 0; i < hist; i += 50 {
+				var batch []*message.Message
+				for j := i; j < i+50 && j < hist; j++ {
+					batch = append(batch, message.NewMessage(fmt.Sprintf("o%d", j), nil))
+				}
+				if err := g.Publish(topic, batch...); err != nil {
+					return []string{"harness: publish failed: " + err.Error()}, false
+				}
+			}
+		}
+		if _, err := g.Subscribe(context.Background(), topic); err != nil {
+			return []string{"harness: subscribe failed: " + err.Error()}, false
 		}
 	}
 	var mu sync.Mutex
@@ -205,14 +234,15 @@ func TestReplayLongHistory(t *testing.T) {
 	}
 	var f struct {
 		Details struct {
-			Hist, Buffer, Publishers, Per, Subs int
-			Blocking                            bool
+			Hist, Buffer, Publishers, Per, Subs, Idle int
+			Blocking                                  bool
 		}
 	}
 	if err := json.Unmarshal(b, &f); err != nil {
 		t.Fatal(err)
 	}
 	d := f.Details
+	idleSubs = d.Idle
 	for i := 0; i < 100; i++ {
 		if p, _ := runLongHistory(d.Hist, d.Buffer, d.Blocking, d.Publishers, d.Per, d.Subs); len(p) > 0 {
 			t.Fatalf("violation of C11 reproduced at attempt %d:\n  %s", i+1, strings.Join(p, "\n  "))
